@@ -512,4 +512,30 @@ theorem count_le_count_flatten (ts : Trajs) (lag : Nat) (a b : Int) :
     rw [count_cons, count_singleton, List.flatten_cons, count_pairs_append]
     omega
 
+theorem countP_interval_le (lo hi n : Nat) :
+    (List.range n).countP (fun i => decide (lo ≤ i ∧ i < hi)) ≤ min n hi - lo := by
+  induction n with
+  | zero => simp
+  | succ n ih =>
+    rw [List.range_succ, List.countP_append]
+    by_cases h : lo ≤ n ∧ n < hi
+    · simp only [List.countP_cons, List.countP_nil, h, and_self, decide_true, if_true]; omega
+    · simp only [List.countP_cons, List.countP_nil, h, decide_false, Bool.false_eq_true, if_false]; omega
+
+theorem countP_le_of_imp_interval {p : Nat → Bool} {lo hi n : Nat} (h : ∀ i, i < n → p i = true → lo ≤ i ∧ i < hi) :
+    (List.range n).countP p ≤ min n hi - lo := by
+  refine Nat.le_trans (List.countP_mono_left ?_) (countP_interval_le lo hi n)
+  intro i hi' hp
+  simpa using h i (List.mem_range.mp hi') hp
+
+theorem straddleCount_le (lag : Nat) (t₁ t₂ : List Int) (a b : Int) :
+    straddleCount lag t₁ t₂ a b ≤ min lag (min t₁.length t₂.length) := by
+  have : straddleCount lag t₁ t₂ a b
+      ≤ min t₁.length (t₁.length + t₂.length - lag) - (t₁.length - lag) := by
+    apply countP_le_of_imp_interval
+    intro i hi hp
+    simp only [List.length_append, Bool.and_eq_true, decide_eq_true_eq] at hp
+    omega
+  omega
+
 end MsmVerif.Msm
